@@ -20,6 +20,7 @@ type apiOut struct {
 	Out        string `json:"out"`
 	RepeatSame bool   `json:"repeat_same"`
 	ConcSame   bool   `json:"conc_same"`
+	HeldSame   bool   `json:"held_same"`
 	Panic      string `json:"panic,omitempty"`
 	Hang       bool   `json:"hang,omitempty"`
 	Skipped    bool   `json:"skipped,omitempty"`
@@ -47,7 +48,7 @@ func runAPI(cases []Case, rep, conc int) {
 	hangs := 0
 	for _, c := range cases {
 		c := c
-		o := apiOut{ID: c.ID, RepeatSame: true, ConcSame: true}
+		o := apiOut{ID: c.ID, RepeatSame: true, ConcSame: true, HeldSame: true}
 		if hangs >= 2 {
 			o.Skipped = true
 			bs, _ := json.Marshal(o)
@@ -75,6 +76,25 @@ func runAPI(cases []Case, rep, conc int) {
 				}
 				out, e, p := applyOnce(f, "a.go", []byte(c.Src))
 				o.Out, o.Err, o.Panic = out, e, p
+				// a caller may keep the bytes Apply returned while it goes on applying the same parsed patch to other
+				// sources (with and without imports, matching and not): what it holds must not change under it
+				var held []byte
+				func() {
+					defer func() { _ = recover() }()
+					held, _ = f.Apply("a.go", []byte(c.Src))
+				}()
+				heldCopy := string(held)
+				for _, other := range []string{
+					"package q\n\nfunc zz() { foo(1); bar(2) }\n",
+					"package q\n\nimport \"fmt\"\n\nfunc zz() { fmt.Println(foo(1)) }\n",
+					c.Src + "\n// tail\n",
+					"package q\n",
+				} {
+					applyOnce(f, "b.go", []byte(other))
+				}
+				if string(held) != heldCopy {
+					o.HeldSame = false
+				}
 				for i := 0; i < rep; i++ {
 					out2, e2, _ := applyOnce(f, "a.go", []byte(c.Src))
 					if out2 != out || (e2 == "") != (e == "") {
